@@ -580,6 +580,21 @@ def family_level_jump():
     return out
 
 
+def family_resubmit_ic():
+    """re-submission of returned message objects with an interceptor chain configured: a re-submitted object is a new
+    message - the chain runs for it once more (and only once)"""
+    out = []
+    for s_ in family_resubmit(False):
+        for n in (1, 2):
+            for v in ("0.10.0.0", "0.11.0.0"):
+                t = copy.deepcopy(s_)
+                t["cfg"].update(interceptors=n, version=v)
+                t["name"] = "%s-ic%d-%s" % (s_["name"], n, v)
+                t["family"] = "resubmit_ic"
+                out.append(t)
+    return out
+
+
 def family_resubmit(idem):
     """the application sends a message OBJECT it got back on Errors()/Successes() again (as a new message), while its
     partition is idle or in a retry phase (parked, then released by flushRetryBuffers): it must be treated like any new
